@@ -12,6 +12,7 @@ From Coq Require Import List Ascii ZArith Bool.
 From CGV Require Import Base.PyBase Base.PyVal Base.PyGen Sample.GenSupport Gen.SamplerGen Sample.SampleImpl
      Sample.SampleDefs Sample.SampleSpec Sample.SampleProofs Sample.SampleTree Sample.SampleFragid Sample.SampleAccount
      Sample.SampleValid Sample.SampleExample.
+From CGV Require Base.NxGraph Resolve.GraphOps Resolve.SortProofs Sample.SampleFinal Sample.SampleNumbering.
 Import ListNotations.
 Open Scope Z_scope.
 
@@ -103,6 +104,31 @@ Section C16.
   Proof. exact (descriptor_once_step M cfg). Qed.
 End C16.
 
+(** numbering_canonical (instantiating the resolver component's SortProofs on the graph the sampler
+    sorts): after sort_nodes_by_attr(molecule, "fragid") the (fragid, old key) pairs in strictly
+    ascending order receive the new keys 0, 1, ..., n-1; the node iteration order is the old one,
+    re-keyed; the keys of the result are a permutation of 0..n-1 *)
+Theorem C16_numbering_canonical : forall g g2, SampleNumbering.wf_graph g ->
+  (forall n, In n g -> PyVal.aget (S "fragid") (NxGraph.na n) <> None) ->
+  GraphOps.sort_nodes_by_attr g = Ok g2 ->
+  exists ks, GraphOps.sort_items g = Ok ks /\ map snd ks = NxGraph.node_keys g /\
+    let sorted := GraphOps.isort ks in let m := GraphOps.mapping_of sorted in
+    Sorted.StronglySorted SortProofs.key_lt sorted /\ Permutation.Permutation sorted ks /\
+    map (NxGraph.map_get m) (map snd sorted) = map Z.of_nat (seq 0 (length g)) /\
+    NxGraph.node_keys g2 = map (NxGraph.map_get m) (NxGraph.node_keys g) /\
+    Permutation.Permutation (NxGraph.node_keys g2) (map Z.of_nat (seq 0 (length g))).
+Proof. exact SampleNumbering.numbering_canonical. Qed.
+(** ... and the sampler's finalisation (hydrogens, sort, names) returns exactly these keys *)
+Theorem C16_sample_numbering_canonical : forall aa g car gf, SampleFinal.finalise_nx aa g car = Ok gf ->
+  exists g1, (if aa then Hydro.Hydrogens.rebuild_h_atoms_default g car else Ok g) = Ok g1 /\
+    (SampleNumbering.wf_graph g1 -> (forall n, In n g1 -> PyVal.aget (S "fragid") (NxGraph.na n) <> None) ->
+     exists ks, GraphOps.sort_items g1 = Ok ks /\ map snd ks = NxGraph.node_keys g1 /\
+       Sorted.StronglySorted SortProofs.key_lt (GraphOps.isort ks) /\ Permutation.Permutation (GraphOps.isort ks) ks /\
+       map (NxGraph.map_get (GraphOps.mapping_of (GraphOps.isort ks))) (map snd (GraphOps.isort ks)) = map Z.of_nat (seq 0 (length g1)) /\
+       NxGraph.node_keys gf = map (NxGraph.map_get (GraphOps.mapping_of (GraphOps.isort ks))) (NxGraph.node_keys g1) /\
+       Permutation.Permutation (NxGraph.node_keys gf) (map Z.of_nat (seq 0 (length g1)))).
+Proof. exact SampleNumbering.sample_numbering_canonical. Qed.
+
 (** non-vacuity: a valid run of six growth steps (two fragments, '>'/'<' and labelled '$'
     descriptors, a zero conditional reactivity, a terminal descriptor) *)
 Example C16_nonvacuous :
@@ -134,4 +160,6 @@ Print Assumptions C16_tree_of_fragments_membership.
 Print Assumptions C16_choice_valid_draw.
 Print Assumptions C16_valid_draw_accepted.
 Print Assumptions C16_descriptor_once.
+Print Assumptions C16_numbering_canonical.
+Print Assumptions C16_sample_numbering_canonical.
 Print Assumptions C16_nonvacuous.
